@@ -370,6 +370,8 @@ def run(ctx):
         main_loop = [s for s in walk_stmts(vc.body) if s.k == 'for'][0]
 
         verdict_store(ck, prog, config, 'C09-d')
+        from ..rules import extra as _x
+        _x.check_reader_data_offset(ck, prog, config, 'C09-e')
         # ---- g  a chunk is marked valid only under a digest comparison (or, for an entry with nothing stored, at all)
         nvs = dlrules.valid_inventory(ck, prog, config, 'C09-g')
         ck.min_instances('stores to zckChunk.valid', nvs, 10)
